@@ -301,6 +301,10 @@ func (ctx *Context) LoadNameGlobalWithDetail(name string, isRaw bool, detail *Bu
 					return nil
 				}
 			}
+			// 过程文本里这个变量的值就是宿主给的值(否则会沿用之前本地查找失败留下的 null)
+			if detail != nil {
+				detail.Ret = val
+			}
 			return val
 		}
 	}
